@@ -453,6 +453,18 @@ impl Symbol {
             SymbolOctetsError(SymbolOctetsEnum::ShortInput)
         }
 
+        /// Converts the decoded value of a sequence of `len` octets.
+        ///
+        /// Fails if the value isn’t a character or if the sequence isn’t
+        /// the shortest possible one (and thus not valid UTF-8).
+        #[inline]
+        fn to_char(value: u32, len: usize) -> Result<char, SymbolOctetsError> {
+            match char::try_from(value) {
+                Ok(ch) if ch.len_utf8() == len => Ok(ch),
+                _ => Err(bad_utf8()),
+            }
+        }
+
         let c1 = match octets.get(pos) {
             Some(c1) => *c1,
             None => return Ok(None),
@@ -531,12 +543,11 @@ impl Symbol {
             // If c1’s third-to-left bit is 0, we have the two octet case.
             if c1 & 0b0010_0000 == 0 {
                 return Ok(Some((
-                    Symbol::Char(
-                        (u32::from(c2 & 0b0011_1111)
-                            | (u32::from(c1 & 0b0001_1111) << 6))
-                            .try_into()
-                            .map_err(|_| bad_utf8())?,
-                    ),
+                    Symbol::Char(to_char(
+                        u32::from(c2 & 0b0011_1111)
+                            | (u32::from(c1 & 0b0001_1111) << 6),
+                        2,
+                    )?),
                     pos,
                 )));
             }
@@ -554,13 +565,12 @@ impl Symbol {
             // If c1’s fourth-to-left bit is 0, we have the three octet case.
             if c1 & 0b0001_0000 == 0 {
                 return Ok(Some((
-                    Symbol::Char(
-                        (u32::from(c3 & 0b0011_1111)
+                    Symbol::Char(to_char(
+                        u32::from(c3 & 0b0011_1111)
                             | (u32::from(c2 & 0b0011_1111) << 6)
-                            | (u32::from(c1 & 0b0001_1111) << 12))
-                            .try_into()
-                            .map_err(|_| bad_utf8())?,
-                    ),
+                            | (u32::from(c1 & 0b0001_1111) << 12),
+                        3,
+                    )?),
                     pos,
                 )));
             }
@@ -576,14 +586,13 @@ impl Symbol {
             }
 
             Ok(Some((
-                Symbol::Char(
-                    (u32::from(c4 & 0b0011_1111)
+                Symbol::Char(to_char(
+                    u32::from(c4 & 0b0011_1111)
                         | (u32::from(c3 & 0b0011_1111) << 6)
                         | (u32::from(c2 & 0b0011_1111) << 12)
-                        | (u32::from(c1 & 0b0000_1111) << 18))
-                        .try_into()
-                        .map_err(|_| bad_utf8())?,
-                ),
+                        | (u32::from(c1 & 0b0000_1111) << 18),
+                    4,
+                )?),
                 pos,
             )))
         }
